@@ -6,7 +6,7 @@
     user traffic goes to (mConn / rConn, chosen by the routing functions of C21); the ghost fields
     record what ROLE said and who announced an address when it was adopted. *)
 From Coq Require Import List Arith NArith ZArith Bool Lia.
-Require Import RV.Model.Base RV.Model.ClusterTopo RV.Model.Sentinel RV.Proofs.SentinelProofs.
+Require Import RV.Model.Base RV.Model.ClusterTopo RV.Model.Sentinel RV.Proofs.ClusterTopoProofs RV.Proofs.SentinelProofs.
 Import ListNotations.
 Open Scope Z_scope.
 
@@ -40,6 +40,85 @@ Theorem C23_wrong_role_rejected : forall w st a src first rest,
   forall st', switch_target w st a true src <> Ok st'.
 Proof. exact switch_target_wrong_role. Qed.
 Print Assumptions C23_wrong_role_rejected.
+
+(** ---- reused vs fresh targets ([target_of]) ----
+    A switch to the address already in use probes the INSTALLED connection.  When that probe fails (ROLE
+    error, wrong role) the installed connection is closed: it stays in mConn / rConn, but no user command
+    reaches the node through it ([live_m] / [live_r] = None) until a later switch succeeds.  On the fresh path
+    a failed switch changes nothing. *)
+Theorem C23_wrong_role_rejected_reuse : forall w st a src first rest,
+  ss_m st = Some a -> ss_m_open st = true -> w_nup w a = true ->
+  w_role w a = RoleArr (first :: rest) -> first <> s_master_b ->
+  target_of w st a true = TReused /\
+  switch_target w st a true src = Err 3 /\
+  live_m (switch_fail w st a true) = None /\
+  live_r (switch_fail w st a true) = live_r st /\ ss_m (switch_fail w st a true) = ss_m st.
+Proof.
+  intros w st a src first rest Hm Ho Hu Hr Hn.
+  pose proof (target_of_current_master w st a Hm Ho Hu) as T.
+  destruct (switch_fail_reused w st a true T) as [[X Y] [Z _]].
+  split; [exact T|]. split; [|auto].
+  unfold switch_target. rewrite Hu, Hr. cbn [negb].
+  destruct (bytes_eqb first s_master_b) eqn:B; [apply list_eqb_N_spec in B; contradiction|reflexivity].
+Qed.
+Print Assumptions C23_wrong_role_rejected_reuse.
+
+(** every failure of a switch to the address in use (ROLE error included), master and replica side *)
+Theorem C23_failed_reuse_closes : forall w st a (is_master : bool) src e,
+  (if is_master return Prop then ss_m st = Some a else ss_r st = Some a) -> w_nup w a = true ->
+  switch_target w st a is_master src = Err e ->
+  (if is_master return Prop then live_m (switch_fail w st a true) = None else live_r (switch_fail w st a false) = None).
+Proof.
+  intros w st a is_master src e H Hu _. destruct is_master.
+  - now apply switch_fail_current_master.
+  - now apply switch_fail_current_replica.
+Qed.
+Print Assumptions C23_failed_reuse_closes.
+
+Theorem C23_failed_fresh_changes_nothing : forall w st a is_master,
+  target_of w st a is_master = TFresh -> switch_fail w st a is_master = st.
+Proof. exact switch_fail_fresh. Qed.
+Print Assumptions C23_failed_fresh_changes_nothing.
+
+(** +switch-master and +reboot master naming the address master traffic currently uses, whose node now answers
+    ROLE with another role (demoted in place while the sentinel still reports it), followed by any number of
+    refresh retries under that world: master traffic reaches that node no more, and wherever it can arrive is
+    reachable and answered "master" *)
+Theorem C23_same_address_demoted : forall n fuel c w st old_h old_p h p tail first rest st',
+  ss_m st = Some (h, p) -> w_nup w (h, p) = true -> w_role w (h, p) = RoleArr (first :: rest) -> first <> s_master_b ->
+  (handle_event n fuel c w st (EvSwitchMaster (sc_set c :: old_h :: old_p :: h :: p :: tail)) = Ok st' \/
+   handle_event n fuel c w st (EvReboot (s_master_b :: sc_set c :: h :: p :: tail)) = Ok st') ->
+  live_m st' <> Some (h, p) /\
+  (live_m st' = None \/ exists a r, live_m st' = Some a /\ w_nup w a = true /\ w_role w a = RoleArr (s_master_b :: r)).
+Proof.
+  intros n fuel c w st old_h old_p h p tail first rest st' Hm Hu Hr Hn [H|H].
+  - destruct (handle_switch_master_same_demoted _ _ _ _ _ _ _ _ _ _ _ _ _ Hm Hu Hr Hn H) as [L N]. split; [exact N|exact L].
+  - destruct (handle_reboot_master_same_demoted _ _ _ _ _ _ _ _ _ _ _ Hm Hu Hr Hn H) as [L N]. split; [exact N|exact L].
+Qed.
+Print Assumptions C23_same_address_demoted.
+
+(** the refresh after a dropped subscription: the switch to the address the sentinel names fails and that address
+    is the one in use — the rotation goes on with the installed connection closed *)
+Theorem C23_refresh_failed_reuse_closes : forall c w st s a r e,
+  sc_replica_only c = false -> (sc_has_str c = true -> r <> None) -> ss_m st = Some a -> w_nup w a = true ->
+  switch_target w st a true (SrcSentinel s) = Err e ->
+  live_m (switch_all_partial c w st s (Some a) r) = None.
+Proof. exact switch_all_partial_current_master. Qed.
+Print Assumptions C23_refresh_failed_reuse_closes.
+
+(** "user traffic only reaches nodes whose latest probe answered the right role", as an invariant of every
+    refresh and every event under one world *)
+Theorem C23_live_probed : forall n fuel c w st,
+  (forall st' o, refresh fuel c w st = Ok (st', o) ->
+     (live_m_ok w st -> live_m_ok w st') /\ (live_r_ok w st -> live_r_ok w st')) /\
+  (forall ev st', handle_event n fuel c w st ev = Ok st' ->
+     (live_m_ok w st -> live_m_ok w st') /\ (live_r_ok w st -> live_r_ok w st')).
+Proof.
+  intros n fuel c w st. split.
+  - intros st' o H. split; intro I; [eapply refresh_live_m|eapply refresh_live_r]; eauto.
+  - intros ev st' H. split; intro I; [eapply handle_event_live_m|eapply handle_event_live_r]; eauto.
+Qed.
+Print Assumptions C23_live_probed.
 
 (** after a successful refresh the master is the address the answering sentinel reported, and that
     node answered "master" *)
@@ -86,6 +165,21 @@ Definition ex_world : world :=
           (fun s => if saddr_eqb s (ex_s 1) then MList [[110%N]; [1%N]] else MList [[110%N]; [2%N]])
           (fun _ => RpErr) (fun _ => true)
           (fun a => if saddr_eqb a (ex_n 2) then RoleArr [s_master_b] else RoleArr [s_slave_b]) 0.
+
+(** the reuse path is reachable: the demoted master is named again by its own address *)
+Example C23_reuse_nonvacuous :
+  match refresh 8 (mkScfg false false [109%N]) ex_world (sinit [ex_s 2]) with
+  | Ok (st, ROk) =>
+    let w' := mkWorld (fun _ => true) (fun _ => SnList []) (fun _ => MList [[110%N]; [2%N]]) (fun _ => RpErr) (fun _ => true)
+                      (fun _ => RoleArr [s_slave_b]) 0 in
+    live_m st = Some (ex_n 2) /\ target_of w' st (ex_n 2) true = TReused /\
+    match handle_event 2 8 (mkScfg false false [109%N]) w' st (EvSwitchMaster [[109%N]; [110%N]; [2%N]; [110%N]; [2%N]]) with
+    | Ok st' => live_m st' = None /\ ss_m st' = Some (ex_n 2)
+    | _ => False
+    end
+  | _ => False
+  end.
+Proof. vm_compute. repeat split; reflexivity. Qed.
 
 Example C23_nonvacuous :
   match refresh 8 (mkScfg false false [109%N]) ex_world (sinit [ex_s 1; ex_s 2]) with
